@@ -42,4 +42,7 @@ def run(ctx):
     out.append(rule_borrow(ctx, m, files=["JSON.hpp", "JSONUtils.hpp"]))
     from rules.progress import rule_progress
     out.append(rule_progress(ctx, m, CONTRACTS, ["JSON.hpp", "JSONUtils.hpp", "StringUtils.hpp", "Digit.hpp"], floor=25))
+    # "no write outside owned memory" includes the parser's own storage: the containers it fills never destroy an object twice
+    from rules.common import rule_dispose_target
+    out.append(rule_dispose_target(ctx, m, files=["HArray.hpp", "HashTable.hpp", "Array.hpp", "Value.hpp", "String.hpp", "JSON.hpp"]))
     return out
